@@ -179,6 +179,32 @@ var witnessMeshes = map[string]func(g *mgen){
 	},
 }
 
+func init() {
+	// C17-11: delta CDS built the clusters in map iteration order over ConfigsUpdated (observation DCDS.order).
+	witnessMeshes["delta-cds-order"] = func(g *mgen) {
+		for i, h := range []string{"ext1.example.com", "ext2.example.com", "api.example.com", "db.example.com"} {
+			g.addCfg("serviceentry", g.meta(gvk.ServiceEntry, "se"+strconv.Itoa(i), "default"), &networking.ServiceEntry{
+				Hosts: []string{h}, Ports: []*networking.ServicePort{httpPort()}, Resolution: networking.ServiceEntry_DNS})
+		}
+	}
+	// C17-12 (state): equally old ServiceEntries sharing a host - two in one namespace with different ports, one in
+	// another namespace: the ambient index kept the first candidate met per namespace and marked the canonical one
+	// while ranging over a map, so its ServiceInfo depended on the order in which the objects were created.
+	witnessMeshes["ambient-shared-host"] = func(g *mgen) {
+		g.node0()
+		g.waypointItself()
+		mk := func(name, ns string, ports ...*networking.ServicePort) {
+			m := g.meta(gvk.ServiceEntry, name, ns)
+			m.Labels = map[string]string{"istio.io/use-waypoint": waypointName, "istio.io/use-waypoint-namespace": "default"}
+			g.addTwinned("serviceentry", m, &networking.ServiceEntry{Hosts: []string{"db.example.com"}, Ports: ports, Resolution: networking.ServiceEntry_DNS})
+		}
+		mk("se0", "default", httpPort())
+		mk("se1", "default", httpPort(), &networking.ServicePort{Number: 9000, Name: "tcp", Protocol: "TCP"}, &networking.ServicePort{Number: 443, Name: "tls", Protocol: "TLS"})
+		mk("se2", "ns1", httpPort(), &networking.ServicePort{Number: 9000, Name: "tcp", Protocol: "TCP"})
+		mk("se3", "ns2", httpPort())
+	}
+}
+
 func witnessMesh(name string) []obj {
 	f, ok := witnessMeshes[name]
 	if !ok {
